@@ -11,7 +11,7 @@ META = {
     'rule': ('one evaluation = one frame of a written file whose decoded INDEX-MIN/INDEX-MAX/SPACING/DIRECTION are compared '
              'with exact statistics of the index rows actually written (python integers / float64); signature = (index dtype, '
              'sequence pattern, window?, user-supplied subset, write number); all but plain increasing float64 are non-trivial'),
-    'required_obs': {'quick': ['c13-indexed', 'c13-no-index-type', 'c13-user-supplied', 'c13-assigned-between-writes', 'c13-index-channel-cast', 'c13-single-row', 'c13-unsigned-decreasing',
+    'required_obs': {'quick': ['c13-indexed', 'c13-no-index-type', 'c13-user-supplied', 'c13-assigned-between-writes', 'c13-index-channel-cast', 'c13-one-attribute-supplied', 'c13-single-row', 'c13-unsigned-decreasing',
                                'c13-diff-beyond-dtype', 'c13-uniform', 'c13-nonuniform', 'c13-near-uniform', 'c13-nan',
                                'c13-direction-present', 'c13-window', 'c13-rewrite', 'c13-failed-first-write']
                      + ['c13-dtype-' + d for d in gen.DTYPES]},
@@ -28,6 +28,12 @@ def cases(tier, seed):
         for pat in PATTERNS:
             yield {'stratum': 'matrix', 'index': i, 'kind': 'matrix', 'dtype': dt, 'pattern': pat}
             i += 1
+    # every pattern once more with ONE index attribute supplied by the user (the others are still to be derived correctly)
+    for dt in (['float64', 'int32', 'uint16'] if tier == 'quick' else gen.DTYPES):
+        for pat in PATTERNS:
+            for only in ('spacing', 'index_min', 'index_max', 'direction'):
+                yield {'stratum': 'one-attribute-supplied', 'index': i, 'kind': 'matrix', 'dtype': dt, 'pattern': pat, 'only': only}
+                i += 1
     for k in range(300 if tier == 'quick' else 8000):
         yield {'stratum': 'random', 'index': k, 'kind': 'random'}
     for k in range(60 if tier == 'quick' else 1500):
@@ -108,7 +114,7 @@ def index_values(r, dt, pat, n):
     return v
 
 
-def make_spec(r, dt, pat, n=None, order=None):
+def make_spec(r, dt, pat, n=None, order=None, only=None):
     n = n or r.choice([2, 3, 5, 9, 20])
     vals = index_values(r, dt, pat, n)
     n = len(vals)
@@ -146,9 +152,11 @@ def make_spec(r, dt, pat, n=None, order=None):
     if r.random() < 0.85:
         fat['index_type'] = r.choice(gen.INDEX_TYPES)
     sup = []
-    if r.random() < 0.3:
+    if only is not None:
+        fat['index_type'] = fat.get('index_type') or r.choice(gen.INDEX_TYPES)
+    if only is not None or r.random() < 0.3:
         for kw in ('index_min', 'index_max', 'spacing', 'direction'):
-            if r.random() < 0.4:
+            if (only == kw) if only is not None else (r.random() < 0.4):
                 v = r.choice(['INCREASING', 'DECREASING']) if kw == 'direction' else r.choice([0, 0.0, 1, 7.5, -3, 1000])
                 route = r.choice(['kw', 'dict', 'AttrSetup'])
                 if route != 'kw':
@@ -181,7 +189,9 @@ def run_case(case):
         dt, pat = case['dtype'], case['pattern']
     else:
         dt, pat = r.choice(gen.DTYPES), r.choice(PATTERNS)
-    sp, sup = make_spec(r, dt, pat)
+    sp, sup = make_spec(r, dt, pat, only=case.get('only'))
+    if case.get('only'):
+        bump('c13-one-attribute-supplied')
     if sp.pop('index_cast', None):
         bump('c13-index-channel-cast')
     hc = False
